@@ -54,6 +54,9 @@ def jsonable(x):
     return repr(x)
 
 
+_OUTER_CREATED = False
+
+
 class Ctx:
     """Per-run context handed to a check's run(ctx)."""
 
@@ -79,7 +82,14 @@ class Ctx:
         self.traces = 0
         self.outcomes = set()
         self.t0 = time.time()
-        self._known = known_findings(pid)
+        # only the outermost context of a run (the one cli.py creates in the main process) consults the ledger of known findings;
+        # contexts that workers build to aggregate their jobs must forward every violation unchanged, otherwise a known finding
+        # would be swallowed there and its KNOWN-FINDING line would never be printed
+        global _OUTER_CREATED
+        import multiprocessing as _mp
+        inner = _OUTER_CREATED or _mp.current_process().name != "MainProcess"
+        _OUTER_CREATED = True
+        self._known = [] if inner else known_findings(pid)
 
     def q(self, quick, thorough):
         return thorough if self.thorough else quick
@@ -163,7 +173,7 @@ class Ctx:
         rc = 0
         if self.violations:
             os.makedirs(os.path.join(REPLAY_DIR, self.pid), exist_ok=True)
-            for key, what, replay in self.violations[:20]:
+            for key, what, replay in self.violations[:int(os.environ.get("VERIF_MAX_VIOLATIONS", "20"))]:
                 h = hashlib.sha1(key.encode()).hexdigest()[:12]
                 rp = os.path.join(REPLAY_DIR, self.pid, h + ".json")
                 with open(rp, "w") as fh:
